@@ -295,6 +295,13 @@ def gen_description(rng: Any) -> dict[str, Any]:
     d["keywords"] = [kw for kw in (gen_text(rng, 1, 2, blanks=False) for _ in range(rng.choice([0, 0, 1, 2, 4]))) if kw]
     n = rng.choice([0, 0, 1, 2, 4, 6])
     d["classifiers"] = [rng.choice(CLASSIFIERS) if rng.random() < 0.85 else gen_text(rng, 1, 3, blanks=False) or "X" for _ in range(n)]
+    seen_cls: set[str] = set()
+    uniq = []
+    for c in d["classifiers"]:
+        if lstrip_ws(c) not in seen_cls or c == lstrip_ws(c):   # two spellings differing only in leading blanks parse alike
+            uniq.append(c)
+        seen_cls.add(lstrip_ws(c))
+    d["classifiers"] = [c for i, c in enumerate(uniq) if c == lstrip_ws(c) or [lstrip_ws(x) for x in uniq].count(lstrip_ws(c)) == 1]
     d["classifiers_static"] = bool(d["classifiers"]) and rng.random() < 0.3
     urls: dict[str, str] = {}
     for _ in range(rng.choice([0, 0, 1, 2, 3, 5])):
@@ -798,7 +805,8 @@ def oracle(d: dict[str, Any], style: str, text: str) -> list[tuple[str, str]]:
             if set(cls) - extra_lic != want or len(extra_lic) > 1:
                 bad.append(("Classifier", f"classifier set differs: missing {sorted(want - set(cls))}, unexpected {sorted(set(cls) - want - extra_lic)}"))
             pyset = set(py)
-            rest = [c for c in cls if c not in pyset]
+            back = {lstrip_ws(c): c for c in d["classifiers"]}   # the code sorts what was declared (leading blanks included)
+            rest = [back.get(c, c) for c in cls if c not in pyset]
             if rest != sorted(rest):
                 bad.append(("Classifier", f"declared/licence classifiers not sorted: {rest!r}"))
             if [c for c in cls if c in pyset] != py:
